@@ -1363,6 +1363,38 @@ def first_touch_probe(run: Run):
                           "reports %r" % ((z, a, q), how, got, want), inp, clause="f0-limit")
 
 
+def stream_edge_nodes(run: Run, c):
+    """the first and the last energy of every table at which f1 and f2 are numbers: the calculators that take
+    energy= evaluate there (a round trip energy -> wavelength -> energy may not move the energy off the table;
+    found by the thorough tier, repaired by 64cf857)"""
+    import numpy as np
+    from periodictable import xsf
+    for z, t in sorted(c.tables.items()):
+        el = c.tbl[z]
+        tab = el.xray.sftable
+        ok = [i for i in range(len(tab[0])) if tab[1][i] == tab[1][i] and tab[2][i] == tab[2][i]]
+        if not ok or el.density is None:
+            continue
+        for i in (ok[0], ok[-1]):
+            e = float(tab[0][i])
+            inp = dict(atom=[z, 0, 0], energy=e, node=i)
+            run.count(key=("edge-node", z, i), nontrivial=True, tag="edge-node")
+            try:
+                rho, irho = (float(v) for v in xsf.xray_sld(el, density=el.density, energy=e))
+                n = complex(xsf.index_of_refraction(el, density=el.density, energy=e))
+                r = float(np.ravel(xsf.mirror_reflectivity(el, density=el.density, energy=e, angle=0.2))[0])
+            except Exception as ex:  # noqa
+                run.violation("a calculator raised %s at the table node %r keV of %s" % (type(ex).__name__, e, el), inp,
+                              clause="refraction")
+                continue
+            lam = float(xsf.xray_wavelength(e))
+            want = 1 - lam ** 2 / (2 * math.pi) * complex(rho, irho) * 1e-6
+            if rho != rho or n != n or abs(n - want) > 1e-12 * abs(want) or not (0 <= r <= 1 + 1e-12):
+                run.violation("at the %s usable energy %r keV of the %s table: xray_sld (%r, %r), index_of_refraction %r, "
+                              "mirror reflectivity %r" % ("first" if i == ok[0] else "last", e, el, rho, irho, n, r),
+                              inp, clause="refraction")
+
+
 def run(run: Run) -> int:
     run.prove(generated=["Constants", "ElementBase", "F0Table"])
     batch = Batch()
@@ -1370,6 +1402,7 @@ def run(run: Run) -> int:
     quick = run.tier == "quick"
     guarded(run, "first touch", first_touch_probe, run)
     guarded(run, "node sweep", stream_sweep, run, c, batch)
+    guarded(run, "edge nodes", stream_edge_nodes, run, c)
     guarded(run, "atom kinds", stream_atom_kinds, run, c, batch, 3 if quick else 40)
     guarded(run, "conversions", stream_convert, run, c, batch, 200 if quick else 20000)
     guarded(run, "f0", stream_f0, run, c, batch, 2 if quick else 150)
